@@ -10,5 +10,6 @@ INVARIANT ManyEntries
 INVARIANT SigLengthSweep
 INVARIANT PairsAreOpaque
 INVARIANT FieldsInOrder
+INVARIANT LookAlikesAreOpaque
 INVARIANT EmitCase
 CHECK_DEADLOCK FALSE
